@@ -40,16 +40,16 @@ class MinorRef:
         for m in self.muts:
             self.by_pos[m.pos].append(m)
         self.obs, self.cnt = {}, {}
+        from . import evidence
+
         for m in self.muts:
-            sc = coverage.single_copy(m, cn)
-            self.obs[m] = coverage[m] / sc if sc > 0 else 0
-            self.cnt[m] = coverage[m]
+            self.obs[m] = evidence.observed_copies(coverage, cn, m)
+            self.cnt[m] = evidence.support(coverage, m)
         self.obs_ref, self.refcnt, self.poscn = {}, {}, {}
         for p in self.positions:
             rm = Mutation(p, "_")
-            sc = coverage.single_copy(rm, cn)
-            self.obs_ref[p] = coverage[rm] / sc if sc > 0 else 0
-            self.refcnt[p] = coverage[rm]
+            self.obs_ref[p] = evidence.observed_copies(coverage, cn, rm)
+            self.refcnt[p] = evidence.support(coverage, rm)
             self.poscn[p] = cn.position_cn(p)
         self.func = {m: gene.is_functional(m) for m in self.muts}
         self._cov_cache = {}
